@@ -19,6 +19,7 @@ const (
 	aField addrKind = iota
 	aElem
 	aCell
+	aElemField // a field of a struct value stored in a slice / array element (read-only)
 )
 
 type Addr struct {
@@ -39,6 +40,9 @@ type LoopInfo struct {
 	dirty     map[string]bool   // memories in which the loop may write objects that existed before the loop
 	phiEnv    map[string]TV     // invariant names -> header values (filled when the header is encoded)
 	entryVals map[*ssa.Phi]TV
+	variant0  string    // value of the loop variant at the header (explicit decreases clause, or derived for a range loop)
+	rangePhi  *ssa.Phi  // range loop: the index phi ...
+	rangeLen  ssa.Value // ... and the length it runs up to (evaluated once, before the loop)
 }
 
 type edge struct {
@@ -974,6 +978,7 @@ func (fr *Frame) enterLoopHeader(b *ssa.BasicBlock, li *LoopInfo) {
 	if fr.e.typeInvTouches(li.mod) {
 		facts = append(facts, fr.typeInvs(st))
 	}
+	fr.headerVariant(li, env, phiVals)
 	r := vc.fresh(fmt.Sprintf("R_loop%d", li.ordinal), "Bool")
 	vc.assume(implies(r, and(append([]string{entryReach}, facts...)...)))
 	for _, si := range scopedInvs {
@@ -1129,4 +1134,106 @@ func (fr *Frame) loopFrame(m string, pre, st State) string {
 	n0 := vc.mem(pre, ctr, "Int")
 	r := fmt.Sprintf("r$%d", vc.nextBound())
 	return fmt.Sprintf("(forall ((%s Int)) (! (=> (< %s %s) (= %s %s)) :pattern (%s)))", r, r, n0, sel(cur, r), sel(old, r), sel(cur, r))
+}
+
+// ---- termination: loop variants -------------------------------------------------------------------------------
+
+func (fr *Frame) loopDecr(li *LoopInfo) *Clause {
+	if fr.contract == nil {
+		return nil
+	}
+	if lc := fr.contract.Loops[li.ordinal]; lc != nil {
+		return lc.Decr
+	}
+	return nil
+}
+
+// rangeShape recognises the SSA of a range loop over a slice, array or string length: the header is
+//   i = phi [-1, i+1]; i1 = i + 1; if i1 < n goto body else done      (n evaluated once, before the loop)
+func rangeShape(li *LoopInfo) (*ssa.Phi, ssa.Value) {
+	var phi *ssa.Phi
+	for _, instr := range li.header.Instrs {
+		p, ok := instr.(*ssa.Phi)
+		if !ok {
+			break
+		}
+		if p.Comment == "rangeindex" {
+			phi = p
+		}
+	}
+	if phi == nil || len(li.header.Instrs) == 0 {
+		return nil, nil
+	}
+	iff, ok := li.header.Instrs[len(li.header.Instrs)-1].(*ssa.If)
+	if !ok {
+		return nil, nil
+	}
+	cmp, ok := iff.Cond.(*ssa.BinOp)
+	if !ok || cmp.Op != token.LSS {
+		return nil, nil
+	}
+	inc, ok := cmp.X.(*ssa.BinOp)
+	if !ok || inc.Op != token.ADD || inc.X != ssa.Value(phi) {
+		return nil, nil
+	}
+	if c, ok := inc.Y.(*ssa.Const); !ok || c.Value == nil || c.Value.String() != "1" {
+		return nil, nil
+	}
+	// the phi must be fed by that increment on every back edge
+	for k, p := range li.header.Preds {
+		if li.header.Dominates(p) && phi.Edges[k] != ssa.Value(inc) {
+			return nil, nil
+		}
+	}
+	if d := defBlock(cmp.Y); d != nil && li.blocks[d] {
+		return nil, nil // the bound is recomputed inside the loop: not a range loop
+	}
+	return phi, cmp.Y
+}
+
+// headerVariant evaluates the loop variant in the (havocked) header state.
+func (fr *Frame) headerVariant(li *LoopInfo, env *SpecEnv, phiVals map[*ssa.Phi]TV) {
+	li.variant0, li.rangePhi, li.rangeLen = "", nil, nil
+	if dc := fr.loopDecr(li); dc != nil {
+		tv, err := env.tr(dc.E)
+		if err != nil {
+			fr.vc().addErr("%s:%d: decreases: %v", dc.File, dc.Line, err)
+			return
+		}
+		if tv.Ty.K != KInt {
+			fr.vc().addErr("%s:%d: decreases is not an integer", dc.File, dc.Line)
+			return
+		}
+		li.variant0 = tv.T
+		return
+	}
+	if phi, n := rangeShape(li); phi != nil {
+		li.rangePhi, li.rangeLen = phi, n
+		li.variant0 = "(- " + fr.val(n).T + " " + phiVals[phi].T + ")"
+	}
+}
+
+// checkVariant: at a back edge the variant was non-negative at the header and is now strictly smaller.
+func (fr *Frame) checkVariant(li *LoopInfo, phiVals map[*ssa.Phi]TV, st State, pos token.Pos) {
+	vc := fr.vc()
+	name := fmt.Sprintf("loop%d/variant", li.ordinal)
+	if dc := fr.loopDecr(li); dc != nil {
+		if li.variant0 == "" {
+			return // already reported
+		}
+		env := &SpecEnv{vc: vc, vars: fr.invariantEnv(li, phiVals), st: st, old: fr.topFrame.funcEntry}
+		tv, err := env.tr(dc.E)
+		if err != nil {
+			vc.addErr("%s:%d: decreases: %v", dc.File, dc.Line, err)
+			return
+		}
+		fr.oblige("variant", name, dc.Props, and("(<= 0 "+li.variant0+")", "(< "+tv.T+" "+li.variant0+")"), "decreases "+dc.Src, pos, "")
+		return
+	}
+	if li.rangePhi != nil {
+		v1 := "(- " + fr.val(li.rangeLen).T + " " + phiVals[li.rangePhi].T + ")"
+		fr.oblige("variant", name, []string{"C03"}, and("(<= 0 "+li.variant0+")", "(< "+v1+" "+li.variant0+")"), "range loop: bound - index decreases", pos, "derived")
+		return
+	}
+	fr.oblige("variant", name+"-missing", []string{"C03"}, "false", "a loop that is not a range loop needs a decreases clause", pos, "")
 }
